@@ -5,10 +5,10 @@ import Hive.Model.Daemon
 
 * `ev …` lines carry the event log recorded from the real daemon; `verdict` answers with the verdict of the
   trace predicates of `Hive/Spec/Daemon.lean` on that log (`accept` / `reject <clauses>`; compared with the
-  verdict of the harness's independent Go oracle), `check` with the verdict over the clauses that are theorems
-  (compared with the constant `accept`, so that a rejected log is recorded with its script).
+  verdict of the harness's independent Go oracle), `check` with the same verdict (compared with the constant
+  `accept`, so that a rejected log is recorded with its script).
 * In a sequential case (`mode seq`) every `do <op>` line is executed on the protocol model
-  (`Hive.Daemon.step true`, the same function the theorems are about) by running the calling thread to its
+  (`Hive.Daemon.step true true`, the same function the theorems are about) by running the calling thread to its
   end and letting the worker goroutines that are due (cancelled, asked to finish, or exiting at once) run to
   their end; the answers must coincide with those of the implementation.
 -/
@@ -56,7 +56,7 @@ def parseEv : List String → Option Ev
 def runThread : Nat → St → Th → St × Th
   | 0, s, t => (s, t)
   | fuel + 1, s, t =>
-    match step true s t with
+    match step true true s t with
     | [] => (s, t)
     | (s', t') :: _ => runThread fuel s' t'
 
@@ -94,11 +94,11 @@ def runShutdown : Nat → St → Th → List Nat → St × Bool
     match t with
     | .sd _ .fin => (s, true)
     | _ =>
-      match step true s t with
+      match step true true s t with
       | (s', t') :: _ => runShutdown fuel s' t' finReq
       | [] =>
         let s' := quiesce 10000 s finReq
-        match step true s' t with
+        match step true true s' t with
         | [] => (s', false)       -- still blocked: would hang
         | _ => runShutdown fuel s' t finReq
 
@@ -192,7 +192,7 @@ def stepLine (d : DSt) (toks : List String) : DSt × String :=
     | some e => ({ d with evs := e :: d.evs }, "ok")
     | none => (d, "bad-ev")
   | ["verdict"] => (d, verdict d.evs.reverse)
-  | ["check"] => (d, verdictProved d.evs.reverse)
+  | ["check"] => (d, verdict d.evs.reverse)
   | _ => (d, "bad-op")
 
 end Hive.Daemon
